@@ -21,10 +21,11 @@ THOROUGH = [(WINDOWS, dict(MaxLen=4, MaxT=5, Ds={0, 1, 2, 3}, AbsLo=2, Hz=9)),
             (["timeout_with_mapper", "timeout_with_mapper_other"],
              dict(MaxLen=2, MaxT=2, SpecTs={0, 1, 2}, AuxLen=1, Small={"timeout_with_mapper_other"}, MaxLenS=1, MaxTS=2, Hz=6)),
             (WINDOWS + ["timeout", "timeout_other", "timeout_with_mapper"],
-             dict(MaxLen=2, MaxT=2, Hz=5, DispLen=2, DispOps=set(WINDOWS) | {"timeout", "timeout_other", "timeout_with_mapper"})),
+             dict(MaxLen=2, MaxT=2, Hz=5, DispLen=2, Small={"timeout_with_mapper", "timeout_other"}, MaxLenS=1, MaxTS=2,
+                  DispOps=set(WINDOWS) | {"timeout", "timeout_other", "timeout_with_mapper"})),
             # a cold source that notifies at its very subscription instant
             (WINDOWS + ["timeout", "timeout_abs", "timeout_other", "timeout_with_mapper"],
-             dict(Lo=0, MaxLen=2, MaxT=2, SpecTs={0, 1}, AuxLen=1, Hz=5))]
+             dict(Lo=0, MaxLen=2, MaxT=2, SpecTs={0, 1}, AuxLen=1, Hz=5, Small={"timeout_with_mapper", "timeout_other"}, MaxLenS=1, MaxTS=1))]
 
 SIM = (WINDOWS + ["timeout", "timeout_abs"], dict(MaxLen=5, MaxT=7, Ds={0, 1, 2, 3, 5}, AbsLo=2, Hz=13))
 
